@@ -149,7 +149,9 @@ def unit_after(prop, unit_name, quick=60, thorough=3000, doc=None, shards_quick=
     def strategy():
         mod = _load_module(prop)
         base = next(u for u in mod.UNITS if u.name == unit_name)
-        return st.fixed_dictionaries({"case": base.strategy(), "before": st.lists(st.sampled_from(actions()), min_size=1, max_size=len(ACTIONS), unique=True)})
+        # a history = the first k actions of a drawn order, k uniform in 1..all: any given action is in two histories out of three
+        before = st.builds(lambda order, k: list(order)[:k], st.permutations(actions()), st.integers(1, len(ACTIONS)))
+        return st.fixed_dictionaries({"case": base.strategy(), "before": before})
 
     def check(case):
         mod = _load_module(prop)
